@@ -1,5 +1,6 @@
 //! Kani proof harnesses for pest-typed (properties C01..C20). See /verif/DESIGN.md.
 #![allow(non_camel_case_types, dead_code, unused_imports, clippy::all)]
+#![recursion_limit = "1024"]
 
 /// Vacuity witness; the driver requires every cover to be SATISFIED.
 #[cfg(kani)]
@@ -12,6 +13,23 @@ macro_rules! cover {
 macro_rules! cover {
     ($c:expr, $m:literal) => {
         let _ = $c;
+    };
+}
+
+/// Fixed-count loops of the harness itself are unrolled by macro, so that the harness-wide unwind bound
+/// can stay at (input length + 2): the bound is what the solver cost scales with.
+macro_rules! unroll6 {
+    ($i:ident, $body:block) => {
+        { const $i: usize = 0; $body } { const $i: usize = 1; $body } { const $i: usize = 2; $body }
+        { const $i: usize = 3; $body } { const $i: usize = 4; $body } { const $i: usize = 5; $body }
+    };
+}
+macro_rules! unroll10 {
+    ($i:ident, $body:block) => {
+        { const $i: usize = 0; $body } { const $i: usize = 1; $body } { const $i: usize = 2; $body }
+        { const $i: usize = 3; $body } { const $i: usize = 4; $body } { const $i: usize = 5; $body }
+        { const $i: usize = 6; $body } { const $i: usize = 7; $body } { const $i: usize = 8; $body }
+        { const $i: usize = 9; $body }
     };
 }
 
@@ -59,6 +77,11 @@ macro_rules! hitem {
             #[cfg_attr(kani, kani::stub(pest::Stack::restore, crate::stubs::s_restore))]
         ] $name $body }
     };
+    ([T2 $($rest:ident)*] [$($attrs:tt)*] $name:ident $body:block) => {
+        $crate::hitem!{ [$($rest)*] [$($attrs)*
+            #[cfg_attr(kani, kani::stub(pest_typed::tracker::Tracker::record_during_with, crate::stubs::t_record_during_with))]
+        ] $name $body }
+    };
     ([T1 $($rest:ident)*] [$($attrs:tt)*] $name:ident $body:block) => {
         $crate::hitem!{ [$($rest)*] [$($attrs)*
             #[cfg_attr(kani, kani::stub(pest_typed::tracker::Tracker::get_entry, crate::stubs::t1_get_entry))]
@@ -76,6 +99,10 @@ pub mod stubs;
 pub mod common;
 pub mod refpeg;
 pub mod rel;
+pub mod grel;
+pub mod gtmp;
+#[rustfmt::skip]
+pub mod gen;
 pub mod c01;
 pub mod c03;
 pub mod c04;
@@ -105,5 +132,6 @@ pub fn registry() -> Vec<(&'static str, &'static str, fn())> {
     c17::register(&mut v);
     c18::register(&mut v);
     c19::register(&mut v);
+    gen::register(&mut v);
     v
 }
